@@ -49,7 +49,7 @@ def St.var (st : St) (slot : Nat) : Option Nat := do
   let i ← st.lw.inst? h
   pure i.var
 
-def field (st : St) (b : Nat) : Nat := ((st.fields.find? fun p => p.1 == b).map (·.2)).getD 0
+def field (st : St) (b : Nat) : Nat := fieldOf st.fields b
 
 /-- value tokens stand for payload objects of eight kinds (`b % 8`, mirrored in harness/c18.py):
 0 Box, 1 `{}`, 2 `[]`, 3 a Box whose `__bool__` is False, 4 an object with `__len__() == 0`,
@@ -112,9 +112,13 @@ def obsCtx (st : St) (c : Nat) : String :=
 def setSlot (st : St) (slot : Nat) (h : Option Nat) : St :=
   { st with slots := st.slots.set slot h }
 
+/-- the slot gives up its instance; the instance is gone (`drop`: last reference) unless a
+`LocalManager` still holds it (proxies refer to the storage cell and keep working either way) -/
 def dropSlot (st : St) (slot : Nat) : St :=
   match st.handle slot with
-  | some h => setSlot { st with lw := lstep st.lw (.drop h) } slot none
+  | some h =>
+    if st.managers.any (·.contains h) then setSlot st slot none
+    else setSlot { st with lw := lstep st.lw (.drop h) } slot none
   | none => st
 
 def releaseSlot (st : St) (c slot : Nat) : St :=
@@ -219,10 +223,10 @@ def step (st : St) (op : List String) : Option (St × String) :=
   | ["pmut", c, i, f] => do
     let c ← c.toNat?; let i ← i.toNat?; let f ← f.toNat?
     let p ← (st.proxies[i]?).join
-    match resolveP attrOf (falsyOf st) st.lw c p with
-    | .obj b => pure (mutateVal st b f)
-    | .unbound => pure (st, "RuntimeError")
-    | .attrError => pure (st, "AttributeError")
+    match mutateVia attrOf (falsyOf st) st.lw st.fields c p f with
+    | (fs, .obj b) => pure (if isScalar b then (st, "immutable") else ({ st with fields := fs }, "ok"))
+    | (_, .unbound) => pure (st, "RuntimeError")
+    | (_, .attrError) => pure (st, "AttributeError")
   | ["plook", c, i, name] => do
     let c ← c.toNat?; let i ← i.toNat?
     let p ← (st.proxies[i]?).join
